@@ -165,7 +165,7 @@ class Rich(object):
     FEATURES = ('binary_literal', 'encoded_string', 'nested_function', 'query', 'alias', 'case', 'repeat', 'interval', 'rule',
                 'procedure', 'constant', 'select', 'enum', 'supertype_expr', 'inverse', 'derive', 'unique', 'where', 'remarks',
                 'tail_remark', 'use_from', 'reference_from', 'generic', 'aggregate_init', 'group_qualifier', 'substring',
-                'long_string')
+                'long_string', 'repeat_bare', 'rename_as')
 
     def __init__(self, rng, avoid=()):
         self.rng = rng
@@ -354,7 +354,8 @@ class Rich(object):
         if k == 6 and self.ok('repeat', 1):
             v = 'k%d' % d
             hdr = r.choice(('%s := 1 TO %s' % (v, self.e_int(env, 1)), '%s := %s TO 1 BY -1' % (v, self.e_int(env, 1)),
-                            'WHILE %s' % self.e_log(env, 1), 'UNTIL %s' % self.e_log(env, 1), '',
+                            'WHILE %s' % self.e_log(env, 1), 'UNTIL %s' % self.e_log(env, 1),
+                            '' if self.ok('repeat_bare', 1) else 'UNTIL TRUE',
                             '%s := 1 TO 10 WHILE %s UNTIL %s' % (v, self.e_log(env, 1), self.e_log(env, 1))))
             e2 = dict(env, ints=env['ints'] + [v]) if hdr.startswith(v) else env
             return ['%sREPEAT %s;' % (sp, hdr)] + self.stmts(e2, d - 1, ind + 2, in_repeat=True) + [sp + 'END_REPEAT;']
@@ -437,7 +438,7 @@ class Rich(object):
                 pick = r.sample(oents, min(len(oents), r.randint(1, 2)))
                 o += ['USE FROM %s (%s);' % (oth, ', '.join(pick))] if r.random() < .7 else ['USE FROM %s;' % oth]
             elif self.ok('reference_from', .6):
-                o += ['REFERENCE FROM %s (%s_f0%s);' % (oth, oth, ' AS %s_rf' % p if r.random() < .4 else '')]
+                o += ['REFERENCE FROM %s (%s_f0%s);' % (oth, oth, ' AS %s_rf' % p if self.ok('rename_as', .4) else '')]
         o += ['']
         consts = []
         if self.ok('constant', .6):
